@@ -335,3 +335,268 @@ Proof.
   - intros Q; injp Q. intros aa; left; revert aa; cle_goal.
     apply cle_same. cbn [actors set_tr]. apply class_flags_actors.
 Qed.
+
+(* ------------------------------------------------------------------ *)
+(** * Deferred terminate(Dropped) items enter the main queue only through the last owner drop *)
+
+Definition notterm (c : citem) : Prop := forall a, ci_kind c <> KTerm a.
+
+Definition mqk (s s' : st) : Prop := forall c, In c (mainq s') -> In c (mainq s) \/ notterm c.
+
+Lemma mqk_refl s : mqk s s. Proof. intros c H; auto. Qed.
+Lemma mqk_trans s1 s2 s3 : mqk s1 s2 -> mqk s2 s3 -> mqk s1 s3.
+Proof. intros A B c H. destruct (B c H) as [H2|N]; auto. Qed.
+Lemma mqk_same s s' : mainq s' = mainq s -> mqk s s'.
+Proof. intros E c H. rewrite E in H. auto. Qed.
+Lemma mqk_push s c : notterm c -> mqk s (push_main s c).
+Proof. intros N d H. unfold push_main in H. cbn [mainq set_mainq] in H. apply in_app_or in H as [H|[<-|[]]]; auto. Qed.
+Lemma notterm_setq c q : notterm c -> notterm (ci_setq c q).
+Proof. intros N a. destruct c; simpl in *. apply N. Qed.
+Lemma mqk_submit s q c : notterm c -> mqk s (submit s q c).
+Proof.
+  intros N. unfold submit. destruct q; try (apply mqk_same; reflexivity).
+  intros d H. unfold push_main in H. cbn [mainq set_mainq] in H. apply in_app_or in H as [H|[<-|[]]]; [left; exact H | right; apply notterm_setq; exact N].
+Qed.
+Lemma mqk_nil s s' : mainq s' = [] -> mqk s s'.
+Proof. intros E c H. rewrite E in H. destruct H. Qed.
+
+Lemma notterm_kind c k : ci_kind c = k -> (forall a, k <> KTerm a) -> notterm c.
+Proof. intros E N a. rewrite E. apply N. Qed.
+
+Lemma mainq_set_alive s v : mainq (set_alive s v) = mainq s. Proof. reflexivity. Qed.
+Lemma mainq_set_now s v : mainq (set_now s v) = mainq s. Proof. reflexivity. Qed.
+Lemma mainq_set_start s v : mainq (set_start s v) = mainq s. Proof. reflexivity. Qed.
+Lemma mainq_set_lazyq s v : mainq (set_lazyq s v) = mainq s. Proof. reflexivity. Qed.
+Lemma mainq_set_idleq s v : mainq (set_idleq s v) = mainq s. Proof. reflexivity. Qed.
+Lemma mainq_set_timers s v : mainq (set_timers s v) = mainq s. Proof. reflexivity. Qed.
+Lemma mainq_set_tnext s v : mainq (set_tnext s v) = mainq s. Proof. reflexivity. Qed.
+Lemma mainq_set_tvars s v : mainq (set_tvars s v) = mainq s. Proof. reflexivity. Qed.
+Lemma mainq_set_recreate s v : mainq (set_recreate s v) = mainq s. Proof. reflexivity. Qed.
+Lemma mainq_set_actors s v : mainq (set_actors s v) = mainq s. Proof. reflexivity. Qed.
+Lemma mainq_set_fwds s v : mainq (set_fwds s v) = mainq s. Proof. reflexivity. Qed.
+Lemma mainq_set_env s v : mainq (set_env s v) = mainq s. Proof. reflexivity. Qed.
+Lemma mainq_set_frames s v : mainq (set_frames s v) = mainq s. Proof. reflexivity. Qed.
+Lemma mainq_set_nuid s v : mainq (set_nuid s v) = mainq s. Proof. reflexivity. Qed.
+Lemma mainq_set_logseq s v : mainq (set_logseq s v) = mainq s. Proof. reflexivity. Qed.
+Lemma mainq_set_logfilter s v : mainq (set_logfilter s v) = mainq s. Proof. reflexivity. Qed.
+Lemma mainq_set_haslogger s v : mainq (set_haslogger s v) = mainq s. Proof. reflexivity. Qed.
+Lemma mainq_set_shut s v : mainq (set_shut s v) = mainq s. Proof. reflexivity. Qed.
+Lemma mainq_set_tr s v : mainq (set_tr s v) = mainq s. Proof. reflexivity. Qed.
+Lemma mainq_emit s e : mainq (emit s e) = mainq s. Proof. reflexivity. Qed.
+Lemma mainq_upd_actor s a y : mainq (upd_actor s a y) = mainq s. Proof. reflexivity. Qed.
+Lemma mainq_push_frame s c l : mainq (push_frame s c l) = mainq s. Proof. reflexivity. Qed.
+Lemma mainq_timer_add s k v t c : mainq (timer_add s k v t c) = mainq s. Proof. reflexivity. Qed.
+Lemma mainq_ref_clone s a : mainq (ref_clone s a) = mainq s.
+Proof. unfold ref_clone. destruct (aget (actors s) a) as [y|]; [destruct (a_freed y)|]; reflexivity. Qed.
+Lemma mainq_log_rec s a b c d : mainq (log_rec s a b c d) = mainq s.
+Proof. unfold log_rec. destruct (allows s b && haslogger s); reflexivity. Qed.
+Lemma mainq_target_ev s ci : mainq (target_ev s ci) = mainq s.
+Proof. unfold target_ev. destruct ci as [u i kd caps q]. destruct kd; reflexivity. Qed.
+Lemma mainq_new_actor s a nt p v : mainq (new_actor s a nt p v) = mainq s.
+Proof. unfold new_actor, log_rec. destruct (allows _ _ && haslogger _); destruct v; reflexivity. Qed.
+Lemma mainq_take s h o s' : take s h = (o, s') -> mainq s' = mainq s.
+Proof. unfold take. repeat dest_match; intros Q; inversion Q; reflexivity. Qed.
+Lemma mainq_take_caps ids : forall s l s', take_caps ids s = (l, s') -> mainq s' = mainq s.
+Proof.
+  induction ids as [|h r IH]; simpl; intros s l s' E.
+  - inversion E; reflexivity.
+  - destruct (take s h) as [[v|] s1] eqn:T.
+    + destruct (take_caps r s1) as [l2 s2] eqn:T2. inversion E; subst. rewrite (IH _ _ _ T2). eapply mainq_take; eauto.
+    + rewrite (IH _ _ _ E). eapply mainq_take; eauto.
+Qed.
+Lemma mainq_take_env_caps ids : forall s l s', take_env_caps ids s = (l, s') -> mainq s' = mainq s.
+Proof.
+  induction ids as [|h r IH]; simpl; intros s l s' E.
+  - inversion E; reflexivity.
+  - destruct (aget (env s) h).
+    + destruct (take_env_caps r (set_env s (adel (env s) h))) as [l2 s2] eqn:T2. inversion E; subst. rewrite (IH _ _ _ T2). reflexivity.
+    + eapply IH; eauto.
+Qed.
+Lemma mainq_bind s h v l s' : bind s h v = (l, s') -> mainq s' = mainq s.
+Proof. unfold bind. destruct (aget (env s) h); intros Q; inversion Q; reflexivity. Qed.
+Lemma mainq_bad s c l s' : bad s c = (l, s') -> mainq s' = mainq s.
+Proof. unfold bad. intros Q; inversion Q; reflexivity. Qed.
+Lemma mainq_inst c mk s ci s' : inst c mk s = (ci, s') -> mainq s' = mainq s /\ ci_kind ci = mk (clo_body c).
+Proof.
+  unfold inst. destruct (take_caps (clo_caps c) s) as [caps s1] eqn:T. intros Q; inversion Q; subst.
+  split; [|reflexivity]. rewrite mainq_emit, mainq_set_nuid. eapply mainq_take_caps; eauto.
+Qed.
+Lemma mainq_inst_call c mk s ci s' : inst_call c mk s = (ci, s') -> mainq s' = mainq s /\ ci_kind ci = mk (clo_body c).
+Proof.
+  unfold inst_call. destruct (inst c mk s) as [ci1 s1] eqn:I. intros Q; inversion Q; subst. rewrite mainq_target_ev. eapply mainq_inst; eauto.
+Qed.
+Lemma mainq_inst_nocaps c mk s ci s' : inst_nocaps c mk s = (ci, s') -> mainq s' = mainq s /\ ci_kind ci = mk (clo_body c).
+Proof. unfold inst_nocaps. intros Q; inversion Q; split; reflexivity. Qed.
+Lemma mainq_mk_notifier s a n r s' : mk_notifier s a n = (r, s') -> mainq s' = mainq s.
+Proof.
+  unfold mk_notifier. destruct n as [[hp c]|].
+  - destruct (lookup s hp) as [v|]; [destruct (handle_actor v) as [p|]|].
+    + destruct (inst_call c (fun b => KMeth p b None) (ref_clone s p)) as [ci s2] eqn:I.
+      intros Q; inversion Q; subst. rewrite (proj1 (mainq_inst_call _ _ _ _ _ I)). apply mainq_ref_clone.
+    + intros Q; inversion Q; subst. reflexivity.
+    + intros Q; inversion Q; subst. reflexivity.
+  - intros Q; inversion Q; subst. reflexivity.
+Qed.
+
+Lemma mqk_tok_script script : forall s0 s, mqk s0 s -> mqk s0 (tok_script s script).
+Proof.
+  unfold tok_script. induction script as [|c r IH]; intros s0 s H; [exact H|]. cbn [fold_left].
+  destruct (inst_env c KPlain s) as [ci s1] eqn:I. apply IH.
+  apply (mqk_trans _ s1).
+  - apply (mqk_trans _ s); [exact H|]. apply mqk_same.
+    unfold inst_env in I. destruct (take_env_caps (clo_caps c) s) as [caps s2] eqn:T. inversion I; subst.
+    rewrite mainq_emit, mainq_set_nuid. eapply mainq_take_env_caps; eauto.
+  - apply mqk_submit. unfold inst_env in I. destruct (take_env_caps (clo_caps c) s) as [caps s2]. inversion I; subst.
+    intros a. simpl. discriminate.
+Qed.
+
+Ltac nt_tac :=
+  first [ (intros ?; simpl; discriminate)
+        | (eapply notterm_kind; [ first [ eapply mainq_inst; eassumption | eapply mainq_inst_call; eassumption
+                                         | eapply mainq_inst_nocaps; eassumption ] | intros ?; discriminate ])
+        | (match goal with |- notterm (as_call _ ?c _) => intros ?; destruct c; simpl; discriminate end) ].
+
+Ltac mqk_tac :=
+  repeat first
+    [ match goal with |- mqk ?x ?y => constr_eq x y; apply mqk_refl end
+    | match goal with C : mqk ?x ?y |- mqk ?x2 ?y2 => constr_eq x x2; constr_eq y y2; exact C end
+    | match goal with
+      | |- mqk _ (emit ?s _) => apply (mqk_trans _ s); [ | apply mqk_same; apply mainq_emit ]
+      | |- mqk _ (push_main ?s _) => apply (mqk_trans _ s); [ | apply mqk_push; nt_tac ]
+      | |- mqk _ (submit ?s _ _) => apply (mqk_trans _ s); [ | apply mqk_submit; nt_tac ]
+      | |- mqk _ (push_frame ?s _ _) => apply (mqk_trans _ s); [ | apply mqk_same; apply mainq_push_frame ]
+      | |- mqk _ (timer_add ?s _ _ _ _) => apply (mqk_trans _ s); [ | apply mqk_same; apply mainq_timer_add ]
+      | |- mqk _ (target_ev ?s _) => apply (mqk_trans _ s); [ | apply mqk_same; apply mainq_target_ev ]
+      | |- mqk _ (log_rec ?s _ _ _ _) => apply (mqk_trans _ s); [ | apply mqk_same; apply mainq_log_rec ]
+      | |- mqk _ (ref_clone ?s _) => apply (mqk_trans _ s); [ | apply mqk_same; apply mainq_ref_clone ]
+      | |- mqk _ (new_actor ?s _ _ _ _) => apply (mqk_trans _ s); [ | apply mqk_same; apply mainq_new_actor ]
+      | |- mqk _ (upd_actor ?s _ _) => apply (mqk_trans _ s); [ | apply mqk_same; apply mainq_upd_actor ]
+      | |- mqk _ (tok_script ?s _) => apply mqk_tok_script
+      | |- mqk _ (set_mainq _ []) => apply mqk_nil; reflexivity
+      | |- mqk _ (set_alive ?s _) => apply (mqk_trans _ s); [ | apply mqk_same; apply mainq_set_alive ]
+      | |- mqk _ (set_now ?s _) => apply (mqk_trans _ s); [ | apply mqk_same; apply mainq_set_now ]
+      | |- mqk _ (set_start ?s _) => apply (mqk_trans _ s); [ | apply mqk_same; apply mainq_set_start ]
+      | |- mqk _ (set_lazyq ?s _) => apply (mqk_trans _ s); [ | apply mqk_same; apply mainq_set_lazyq ]
+      | |- mqk _ (set_idleq ?s _) => apply (mqk_trans _ s); [ | apply mqk_same; apply mainq_set_idleq ]
+      | |- mqk _ (set_timers ?s _) => apply (mqk_trans _ s); [ | apply mqk_same; apply mainq_set_timers ]
+      | |- mqk _ (set_tnext ?s _) => apply (mqk_trans _ s); [ | apply mqk_same; apply mainq_set_tnext ]
+      | |- mqk _ (set_tvars ?s _) => apply (mqk_trans _ s); [ | apply mqk_same; apply mainq_set_tvars ]
+      | |- mqk _ (set_recreate ?s _) => apply (mqk_trans _ s); [ | apply mqk_same; apply mainq_set_recreate ]
+      | |- mqk _ (set_fwds ?s _) => apply (mqk_trans _ s); [ | apply mqk_same; apply mainq_set_fwds ]
+      | |- mqk _ (set_env ?s _) => apply (mqk_trans _ s); [ | apply mqk_same; apply mainq_set_env ]
+      | |- mqk _ (set_frames ?s _) => apply (mqk_trans _ s); [ | apply mqk_same; apply mainq_set_frames ]
+      | |- mqk _ (set_nuid ?s _) => apply (mqk_trans _ s); [ | apply mqk_same; apply mainq_set_nuid ]
+      | |- mqk _ (set_logseq ?s _) => apply (mqk_trans _ s); [ | apply mqk_same; apply mainq_set_logseq ]
+      | |- mqk _ (set_logfilter ?s _) => apply (mqk_trans _ s); [ | apply mqk_same; apply mainq_set_logfilter ]
+      | |- mqk _ (set_haslogger ?s _) => apply (mqk_trans _ s); [ | apply mqk_same; apply mainq_set_haslogger ]
+      | |- mqk _ (set_shut ?s _) => apply (mqk_trans _ s); [ | apply mqk_same; apply mainq_set_shut ]
+      | |- mqk _ (set_tr ?s _) => apply (mqk_trans _ s); [ | apply mqk_same; apply mainq_set_tr ]
+      | |- mqk _ (if ?b then _ else _) => destruct b
+      | |- mqk _ (match ?b with Some _ => _ | None => _ end) => destruct b
+      | |- mqk _ ?s' =>
+          match goal with
+          | E : take ?s _ = (_, s') |- _ => apply (mqk_trans _ s); [ | apply mqk_same; apply (mainq_take _ _ _ _ E) ]
+          | E : take_caps _ ?s = (_, s') |- _ => apply (mqk_trans _ s); [ | apply mqk_same; apply (mainq_take_caps _ _ _ _ E) ]
+          | E : bind ?s _ _ = (_, s') |- _ => apply (mqk_trans _ s); [ | apply mqk_same; apply (mainq_bind _ _ _ _ _ E) ]
+          | E : bad ?s _ = (_, s') |- _ => apply (mqk_trans _ s); [ | apply mqk_same; apply (mainq_bad _ _ _ _ E) ]
+          | E : inst _ _ ?s = (_, s') |- _ => apply (mqk_trans _ s); [ | apply mqk_same; apply (mainq_inst _ _ _ _ _ E) ]
+          | E : inst_call _ _ ?s = (_, s') |- _ => apply (mqk_trans _ s); [ | apply mqk_same; apply (mainq_inst_call _ _ _ _ _ E) ]
+          | E : inst_nocaps _ _ ?s = (_, s') |- _ => apply (mqk_trans _ s); [ | apply mqk_same; apply (mainq_inst_nocaps _ _ _ _ _ E) ]
+          | E : mk_notifier ?s _ _ = (_, s') |- _ => apply (mqk_trans _ s); [ | apply mqk_same; apply (mainq_mk_notifier _ _ _ _ _ E) ]
+          end
+      end ].
+
+Ltac mqk_all := solve [intros Q; try injp Q; mqk_tac].
+
+Lemma do_act_mqk act s pre s' : do_act act s = (pre, s') -> mqk s s'.
+Proof.
+  unfold do_act. destruct act; try solve [repeat dest_match; mqk_all].
+Qed.
+
+Lemma mainq_class_flags s : mainq (class_flags s) = mainq s.
+Proof.
+  unfold class_flags. generalize (actors s) at 1 as all. intros all.
+  generalize (actors s) as l. intros l. revert s. induction l as [|p l IH]; intros s; simpl; auto.
+  rewrite IH. unfold emit_opt. destruct (class_flag all p); reflexivity.
+Qed.
+
+Lemma handle_mqk m s pre s' :
+  (forall a lg, m <> MDropOwn a lg) -> handle m s = (pre, s') -> mqk s s'.
+Proof.
+  intros ND. destruct m; cbn [handle].
+  - unfold do_top. destruct o; repeat dest_match; mqk_all.
+  - destruct l as [|act l]; [mqk_all|].
+    destruct (do_act act s) as [p s1] eqn:E. intros Q; injp Q. eapply do_act_mqk; eauto.
+  - destruct (frames s) as [|fr rest]; mqk_all.
+  - destruct (frames s) as [|fr rest]; mqk_all.
+  - unfold run_item. destruct c as [u i kd caps q]. destruct kd; repeat dest_match; mqk_all.
+  - unfold drop_item. destruct c as [u i kd caps q]. destruct kd; mqk_all.
+  - mqk_all.
+  - unfold drop_val. destruct v; repeat dest_match; mqk_all.
+  - exfalso. eapply ND; reflexivity.
+  - unfold drop_ref. destruct (aget (actors s) a) as [y|] eqn:A; [|mqk_all].
+    destruct (a_freed y); [mqk_all|]. destruct (minrc_drop (a_rc y)) as [[v z]|]; [|mqk_all].
+    destruct z; [|mqk_all].
+    destruct (state_drops a (a_state y) _) as [dl s2] eqn:SD. intros Q; injp Q.
+    destruct (state_drops_h (HO 0) _ _ _ _ _ SD) as [-> _]. mqk_tac.
+  - unfold ret_invoke. destruct r as [rid k]. destruct k; repeat dest_match; mqk_all.
+  - mqk_all.
+  - mqk_all.
+  - mqk_all.
+  - mqk_all.
+  - unfold terminate. destruct (aget (actors s) a) as [y|] eqn:A; [|mqk_all].
+    destruct (state_drops a (a_state y) _) as [dl s1] eqn:SD.
+    destruct (state_drops_h (HO 0) _ _ _ _ _ SD) as [-> _].
+    destruct (a_notify y); intros Q; injp Q; mqk_tac.
+  - destruct (aget (actors s) a); mqk_all.
+  - destruct (aget (actors s) a) as [y|] eqn:A; [|mqk_all]. destruct (a_state y); mqk_all.
+  - unfold fresh_stakker. mqk_all.
+  - destruct idle; [destruct (idleq s)|]; mqk_all.
+  - destruct (t >? now (set_mainq s [])).
+    + destruct (fire t (set_now (set_mainq s []) t)) as [fired s2] eqn:FI. unfold fire in FI. injection FI as ? ?; subst.
+      mqk_all.
+    + mqk_all.
+  - repeat dest_match; mqk_all.
+  - repeat dest_match; mqk_all.
+  - cbv zeta. mqk_all.
+  - repeat dest_match; mqk_all.
+  - repeat dest_match; mqk_all.
+  - mqk_all.
+  - intros Q; injp Q. apply mqk_same. cbn [mainq set_tr]. apply mainq_class_flags.
+Qed.
+
+(* the last owner drop: the deferred terminate(Dropped) is queued exactly when the count reaches 0 *)
+Lemma drop_own_mq a lg s pre s' :
+  (forall c y, aget (actors s) c = Some y -> srange (a_strong y)) -> 0 < ctr (HO a) s < CMAX ->
+  drop_own a lg s = (pre, s') ->
+  ctr (HO a) s' = ctr (HO a) s - 1 /\ (exists y, aget (actors s') a = Some y) /\
+  forall c, In c (mainq s') -> In c (mainq s) \/ (ci_kind c = KTerm a /\ ctr (HO a) s' = 0).
+Proof.
+  intros SR C. unfold drop_own.
+  set (s0 := if lg then emit s (EOwnDrop a) else s).
+  assert (A0 : actors s0 = actors s) by (unfold s0; destruct lg; reflexivity).
+  assert (M0 : mainq s0 = mainq s) by (unfold s0; destruct lg; reflexivity).
+  destruct (ctr_pos_in s a ltac:(lia)) as (y & AY & CY). rewrite A0, AY.
+  assert (AY0 : aget (actors s0) a = Some y) by (rewrite A0; exact AY).
+  destruct (count_dec (a_strong y)) as [[v z]|] eqn:CD.
+  - destruct (cnt_dec _ _ _ (SR _ _ AY) ltac:(lia) CD) as (SV & CV & ZZ).
+    assert (C1 : ctr (HO a) (upd_actor s0 a (with_strong y v)) = ctr (HO a) s - 1).
+    { rewrite (ctr_upd_some _ _ _ _ _ AY0). unfold ctr at 1. rewrite A0, AY. cbn [cact a_strong with_strong]. rewrite N.eqb_refl. lia. }
+    assert (G1 : exists y1, aget (actors (upd_actor s0 a (with_strong y v))) a = Some y1).
+    { unfold upd_actor. cbn [actors set_actors]. rewrite aget_aset_eq. eauto. }
+    destruct z; intros Q; injp Q.
+    + assert (C2 : ctr (HO a) (push_main (ref_clone (upd_actor s0 a (with_strong y v)) a) (CI 0 0 (KTerm a) [] None)) = ctr (HO a) s - 1).
+      { rewrite <- C1. unfold ctr. change (actors (push_main ?x _)) with (actors x).
+        destruct G1 as (y1 & G1). destruct (opres_some _ _ _ _ (opres_ref_clone _ a) G1) as (y2 & G2 & (S2 & _)).
+        rewrite G2, G1, S2. reflexivity. }
+      split; [exact C2|]. split.
+      * destruct G1 as (y1 & G1). destruct (opres_some _ _ _ _ (opres_ref_clone _ a) G1) as (y2 & G2 & _).
+        exists y2. exact G2.
+      * intros c H. unfold push_main in H. cbn [mainq set_mainq] in H. rewrite mainq_ref_clone, mainq_upd_actor, M0 in H.
+        apply in_app_or in H as [H|[<-|[]]]; [left; exact H | right]. split; [reflexivity|].
+        rewrite C2. symmetry in ZZ. apply Z.eqb_eq in ZZ. lia.
+    + split; [exact C1|]. split; [exact G1|]. intros c H. rewrite mainq_upd_actor, M0 in H. left; exact H.
+  - exfalso. unfold count_dec in CD. destruct (a_strong y <? COUNT_INC) eqn:L; [discriminate|].
+    destruct (a_strong y >=? COUNT_MASK); [discriminate|]. cbn [orb] in CD.
+    unfold csub in CD. destruct (COUNT_INC <=? a_strong y) eqn:L2; [discriminate|]. zb. lia.
+Qed.
